@@ -101,6 +101,23 @@ static void bump_by(std::pair<const int, RE>& e, int d)
     e.second.v += d;
 }
 
+// The loops below are written the way the language defines a range-based for ([stmt.ranged]: begin and end taken once,
+// `decl = *it` at the top of the body), so that the increment can also be spelled `it++`: a caller who walks the range
+// by hand may use either form and must see the same thing.  g_style: 0 = `++it` (what a range-for does), 1 = `it++`.
+static int g_style = 0;
+template <typename It>
+static void vh_step(It& it)
+{
+    if (g_style == 1)
+        it++;
+    else
+        ++it;
+}
+#define VH_FOR(DECL, R)                                                                                                \
+    for (auto vh_it = (R).begin(), vh_end = (R).end(); vh_it != vh_end; vh_step(vh_it))                               \
+        for (bool vh_once = true; vh_once;)                                                                            \
+            for (DECL = *vh_it; vh_once; vh_once = false)
+
 struct Out
 {
     J visited = J::arr();
@@ -266,7 +283,7 @@ static J en_lv(int n, bool write, int h)
     with_range(
         h, [&] { return nitro::lang::enumerate(c); }, [&] { return nitro::lang::enumerate(other); },
         [&](auto& r) {
-            for (auto e : r)
+            VH_FOR(auto e, r)
             {
                 o.push(e.index(), val(e.value()));
                 if (write)
@@ -286,7 +303,7 @@ static J en_const(int n, bool, int h)
     with_range(
         h, [&] { return nitro::lang::enumerate(c); }, [&] { return nitro::lang::enumerate(other); },
         [&](auto& r) {
-            for (auto e : r)
+            VH_FOR(auto e, r)
                 o.push(e.index(), val(e.value()));
         });
     return J::obj().set("visited", o.visited).set("after", contents(c));
@@ -303,7 +320,7 @@ static J en_rv(int n, bool, int h)
             return nitro::lang::enumerate(std::move(t));
         },
         [&](auto& r) {
-            for (auto e : r)
+            VH_FOR(auto e, r)
                 o.push(e.index(), val(e.value()));
         });
     J after = J::arr();
@@ -321,7 +338,7 @@ static J re_lv(int n, bool write, int h)
     with_range(
         h, [&] { return nitro::lang::reverse(c); }, [&] { return nitro::lang::reverse(other); },
         [&](auto& r) {
-            for (auto& x : r)
+            VH_FOR(auto& x, r)
             {
                 o.push(0, val(x));
                 if (write)
@@ -341,7 +358,7 @@ static J re_const(int n, bool, int h)
     with_range(
         h, [&] { return nitro::lang::reverse(c); }, [&] { return nitro::lang::reverse(other); },
         [&](auto& r) {
-            for (const auto& x : r)
+            VH_FOR(const auto& x, r)
                 o.push(0, val(x));
         });
     return J::obj().set("visited", o.visited).set("after", contents(c));
@@ -358,7 +375,7 @@ static J re_rv(int n, bool, int h)
             return nitro::lang::reverse(std::move(t));
         },
         [&](auto& r) {
-            for (const auto& x : r)
+            VH_FOR(const auto& x, r)
                 o.push(0, val(x));
         });
     J after = J::arr();
@@ -374,7 +391,7 @@ static J en_crv(int n, bool, int h)
     with_range_noassign(
         h, [&] { return nitro::lang::enumerate(make_const<K>(n, false)); },
         [&](auto& r) {
-            for (auto e : r)
+            VH_FOR(auto e, r)
                 o.push(e.index(), val(e.value()));
         });
     J after = J::arr();
@@ -389,7 +406,7 @@ static J re_crv(int n, bool, int h)
     with_range_noassign(
         h, [&] { return nitro::lang::reverse(make_const<K>(n, false)); },
         [&](auto& r) {
-            for (const auto& x : r)
+            VH_FOR(const auto& x, r)
                 o.push(0, val(x));
         });
     J after = J::arr();
@@ -426,7 +443,7 @@ static J carr_en_lv(bool write, int h)
     with_range(
         h, [&] { return nitro::lang::enumerate(c); }, [&] { return nitro::lang::enumerate(other); },
         [&](auto& r) {
-            for (auto e : r)
+            VH_FOR(auto e, r)
             {
                 o.push(e.index(), val(e.value()));
                 if (write)
@@ -447,7 +464,7 @@ static J carr_en_const(bool, int h)
     with_range(
         h, [&] { return nitro::lang::enumerate(c); }, [&] { return nitro::lang::enumerate(other); },
         [&](auto& r) {
-            for (auto e : r)
+            VH_FOR(auto e, r)
                 o.push(e.index(), val(e.value()));
         });
     return J::obj().set("visited", o.visited).set("after", after_of(c0));
@@ -462,7 +479,7 @@ static J carr_re_lv(bool write, int h)
     with_range(
         h, [&] { return nitro::lang::reverse(c); }, [&] { return nitro::lang::reverse(other); },
         [&](auto& r) {
-            for (auto x : r)
+            VH_FOR(auto x, r)
             {
                 o.push(0, val(x));
                 if (write)
@@ -483,7 +500,7 @@ static J carr_re_const(bool, int h)
     with_range(
         h, [&] { return nitro::lang::reverse(c); }, [&] { return nitro::lang::reverse(other); },
         [&](auto& r) {
-            for (auto x : r)
+            VH_FOR(auto x, r)
                 o.push(0, val(x));
         });
     return J::obj().set("visited", o.visited).set("after", after_of(c0));
@@ -596,6 +613,7 @@ static J dispatch(const std::string& id, int n, bool w, int h)
 static J run(const J& c)
 {
     g_bad = 0;
+    g_style = (c.has("style") && c["style"].str() == "post") ? 1 : 0;
     int h = 0;
     if (c.has("handoff"))
     {
